@@ -454,6 +454,12 @@ func c13Encrypted(c *Ctx) {
 				aeadCalls = append(aeadCalls, call)
 			}
 		})
+		if len(aeadCalls) == 0 && !isDec {
+			// closure form: encrypt*(…) = helper(keyset, func(b []byte) ([]byte, error) { return aead.Encrypt(b, associatedData) })
+			if c13EncryptViaClosure(c, f, key, method, withCtx, adParam, ksParam) {
+				continue
+			}
+		}
 		if len(aeadCalls) != 1 {
 			r.Bad("C13.encrypted", key+"/one AEAD call", p.FuncPos(f), fmt.Sprintf("expected exactly one call of the key-encryption AEAD's %s, found %d (a second attempt with other parameters weakens the binding)", method, len(aeadCalls)))
 			continue
@@ -552,7 +558,7 @@ func c13Encrypted(c *Ctx) {
 		allInstrs(f, func(ins ssa.Instruction) {
 			if al, ok := ins.(*ssa.Alloc); ok && core.TypeID(al.Type()) == "proto/tink_go_proto.EncryptedKeyset" {
 				rel := core.Rel(core.PkgOf(f))
-				okSite := rel == "keyset" && (f.Name() == "encrypt" || f.Name() == "encryptWithContext" || strings.HasPrefix(f.Name(), "Read") || f.Name() == "ReadEncrypted")
+				okSite := rel == "keyset" && (f.Name() == "encrypt" || f.Name() == "encryptWithContext" || strings.HasPrefix(f.Name(), "Read") || f.Name() == "ReadEncrypted" || c13EncryptHelpers[f])
 				// readers allocate an empty message to unmarshal into
 				if !okSite && rel == "keyset" {
 					// an empty message (reader target), or a copy of nothing but the ciphertext field of another EncryptedKeyset
@@ -718,3 +724,119 @@ func touchesKeyMaterial(v ssa.Value, depth int, seen map[ssa.Value]bool) string 
 	}
 	return ""
 }
+
+// c13EncryptViaClosure decides the encrypt-side obligations when the AEAD call
+// sits in a closure handed to a shared helper of the package. It returns false
+// when the function does not have that shape (the ordinary rule then reports).
+func c13EncryptViaClosure(c *Ctx, f *ssa.Function, key, method string, withCtx bool, adParam, ksParam ssa.Value) bool {
+	p, r := c.P, c.R
+	if len(f.AnonFuncs) != 1 {
+		return false
+	}
+	cl := f.AnonFuncs[0]
+	var aead []*ssa.Call
+	allInstrs(cl, func(ins ssa.Instruction) {
+		if call, ok := ins.(*ssa.Call); ok && call.Call.IsInvoke() && strings.HasPrefix(call.Call.Method.Name(), method[:7]) {
+			aead = append(aead, call)
+		}
+	})
+	// the helper call receiving the closure
+	var hcall *ssa.Call
+	var mc *ssa.MakeClosure
+	allInstrs(f, func(ins ssa.Instruction) {
+		call, ok := ins.(*ssa.Call)
+		if !ok {
+			return
+		}
+		for _, a := range call.Call.Args {
+			if m, isMC := guard.Strip(a).(*ssa.MakeClosure); isMC && m.Fn == ssa.Value(cl) {
+				hcall, mc = call, m
+			}
+		}
+	})
+	if len(aead) != 1 || hcall == nil {
+		return false
+	}
+	h := hcall.Call.StaticCallee()
+	if h == nil || h.Blocks == nil || h.Pkg != f.Pkg {
+		return false
+	}
+	call := aead[0]
+	args := call.Call.Args
+	if withCtx {
+		args = args[1:]
+	}
+	// associated data: the free variable bound to the caller's associatedData parameter
+	okAD := false
+	if len(args) == 2 {
+		v := guard.Strip(args[1])
+		if u, isU := v.(*ssa.UnOp); isU {
+			v = u.X
+		}
+		for i, fv := range cl.FreeVars {
+			if v == ssa.Value(fv) && i < len(mc.Bindings) {
+				b := guard.Strip(mc.Bindings[i])
+				if b == adParam {
+					okAD = true
+				}
+				// captured by reference: the binding is the cell holding the parameter
+				if al, isAl := b.(*ssa.Alloc); isAl {
+					for _, ref := range *al.Referrers() {
+						if st, isS := ref.(*ssa.Store); isS && st.Addr == ssa.Value(al) && guard.Strip(st.Val) == adParam {
+							okAD = true
+						}
+					}
+				}
+			}
+		}
+	}
+	r.Check(okAD && call.Call.Method.Name() == method, "C13.encrypted", key+"/associated data", p.Pos(call.Pos()),
+		"the key-encryption AEAD is not called with the caller's associatedData parameter", method+"(…, associatedData parameter) inside the closure handed to "+h.Name())
+	// plaintext: the closure's own parameter, which the helper binds to proto.Marshal(keyset)
+	okData := len(args) == 2 && len(cl.Params) >= 1 && guard.Strip(args[0]) == ssa.Value(cl.Params[0])
+	cidx, kidx := -1, -1
+	for i, a := range hcall.Call.Args {
+		if guard.Strip(a) == ssa.Value(mc) {
+			cidx = i
+		}
+		if guard.Strip(a) == ksParam {
+			kidx = i
+		}
+	}
+	var inner []*ssa.Call
+	if cidx >= 0 && cidx < len(h.Params) {
+		allInstrs(h, func(ins ssa.Instruction) {
+			if c2, ok := ins.(*ssa.Call); ok && c2.Call.Value == ssa.Value(h.Params[cidx]) {
+				inner = append(inner, c2)
+			}
+		})
+	}
+	if len(inner) != 1 || kidx < 0 || kidx >= len(h.Params) {
+		r.Bad("C13.encrypted", key+"/one AEAD call", p.FuncPos(f), fmt.Sprintf("the helper %s does not call the encryption closure exactly once on the caller's keyset (%d calls)", h.Name(), len(inner)))
+		return true
+	}
+	ic := inner[0]
+	mcall, mi := guard.CallOf(ic.Call.Args[0])
+	okData = okData && mcall != nil && mi == 0 && guard.CalleeName(&mcall.Call) == "google.golang.org/protobuf/proto.Marshal" && guard.Strip(mcall.Call.Args[0]) == ssa.Value(h.Params[kidx])
+	r.Check(okData, "C13.encrypted", key+"/plaintext", p.Pos(call.Pos()), "Encrypt is not applied to proto.Marshal(keyset)", "closure(proto.Marshal(keyset)) in "+h.Name())
+	okLit := false
+	allInstrs(h, func(ins ssa.Instruction) {
+		if base, fld, val, ok := guard.StoreField(ins); ok && fld == "EncryptedKeyset" && core.TypeID(base.Type()) == "proto/tink_go_proto.EncryptedKeyset" {
+			if vc, vi := guard.CallOf(val); vc == ic && vi == 0 {
+				okLit = true
+			}
+		}
+	})
+	// and the result of the helper is what the function returns
+	forwards := false
+	for _, ret := range guard.Returns(f) {
+		if rc, ri := guard.CallOf(ret.Results[0]); rc == hcall && ri == 0 {
+			forwards = true
+		}
+	}
+	r.Check(okLit && forwards, "C13.encrypted", key+"/output", p.FuncPos(f), "the EncryptedKeyset message does not carry the AEAD's ciphertext", "EncryptedKeyset.EncryptedKeyset = result of the closure, returned unchanged")
+	c13EncryptHelpers[h] = true
+	return true
+}
+
+var c13EncryptHelpers = map[*ssa.Function]bool{}
